@@ -128,3 +128,33 @@ def replay(path):
         return 1
     print('not reproduced on the current tree')
     return 0
+
+
+def run_supplements(pid, tier):
+    """Run the bounded stand-ins registered for this property (units/zz_supplement.json)."""
+    import time
+    p = os.path.join(VERIF, 'units', 'zz_supplement.json')
+    if not os.path.exists(p):
+        return []
+    reg = json.load(open(p)).get(pid, {})
+    kinds = list(reg.get('quick', []))
+    if tier == 'thorough':
+        kinds += [k for k in reg.get('thorough', []) if k not in kinds]
+    if not kinds:
+        return []
+    ok, log = build()
+    if not ok:
+        return [{'kind': k, 'found': False, 'error': 'witness crate does not build against this tree: ' + log[-300:]} for k in kinds]
+    out = []
+    for k in kinds:
+        t0 = time.time()
+        try:
+            r = run_witness('search', k, timeout=600)
+        except subprocess.TimeoutExpired:
+            r = {'found': False, 'error': 'timeout'}
+        r['kind'] = k
+        r['wall_s'] = round(time.time() - t0, 1)
+        if r.get('found'):
+            r['replay_cmd'] = '%s replay %s %s' % (BIN, k, json.dumps(json.dumps(r.get('input'))))
+        out.append(r)
+    return out
